@@ -42,6 +42,10 @@ type ParsedFn struct {
 	Cfg  CfgSpec
 	Fn   fnType
 	Out  string // canonical outcome of Parse
+	// SelfFn: a second function parsed from the same path and Config.  When user functions of a
+	// reference evaluation "re-enter the function that is calling them" they call this one:
+	// by the property both behave alike, and the reference itself is then never re-entered.
+	SelfFn fnType
 }
 
 // op kinds
@@ -321,6 +325,9 @@ func soloEvalP(pf *ParsedFn, doc interface{}, faults, panics [nFuncs]uint64, rec
 	rec.Panics = panics
 	if soloSelf {
 		rec.Self = pf.Fn
+		if pf.SelfFn != nil {
+			rec.Self = pf.SelfFn
+		}
 	}
 	s := recSlot()
 	old := curRec[s]
